@@ -44,6 +44,7 @@ ChildrenList - a custom implementation of list.
 
 '''
 import copy
+import operator
 
 from psyclone.errors import GenerationError, InternalError
 from psyclone.psyir.symbols import SymbolError
@@ -173,6 +174,25 @@ class ChildrenList(list):
                     f"its constructor predefined the parent reference to a "
                     f"different '{item.parent.coloured_name(False)}' node.")
 
+    def _positive_index(self, index):
+        '''
+        :param int index: a (possibly negative) index of an existing item.
+
+        :returns: the equivalent non-negative index (which is only out \
+            of range if it is beyond the end of the list).
+        :rtype: int
+
+        :raises TypeError: if the index is not an integer.
+        :raises IndexError: if the index is before the start of the list.
+
+        '''
+        index = operator.index(index)  # TypeError if it is not an integer
+        if index < 0:
+            index += len(self)
+            if index < 0:
+                raise IndexError("ChildrenList index out of range")
+        return index
+
     def _set_parent_link(self, node):
         '''
         Set parent connection of the given node to this ChildrenList's node.
@@ -221,6 +241,7 @@ class ChildrenList(list):
         :type item: :py:class:`psyclone.psyir.nodes.Node`
 
         '''
+        index = self._positive_index(index)
         self._validate_item(index, item)
         self._check_is_orphan(item)
         self._del_parent_link(self[index])
@@ -236,13 +257,18 @@ class ChildrenList(list):
         :type item: :py:class:`psyclone.psyir.nodes.Node`
 
         '''
-        positiveindex = index if index >= 0 else len(self) - index
+        # As list.insert, a negative index counts from the end and an
+        # out-of-range index is clamped to the start/end of the list.
+        if index < 0:
+            positiveindex = max(0, len(self) + index)
+        else:
+            positiveindex = min(index, len(self))
         self._validate_item(positiveindex, item)
         self._check_is_orphan(item)
         # Check that all displaced items will still in valid positions
         for position in range(positiveindex, len(self)):
             self._validate_item(position + 1, self[position])
-        super().insert(index, item)
+        super().insert(positiveindex, item)
         self._set_parent_link(item)
         self._node_reference.update_signal()
 
@@ -269,11 +295,11 @@ class ChildrenList(list):
         :param int index: position where to insert the item.
 
         '''
-        positiveindex = index if index >= 0 else len(self) - index
+        positiveindex = self._positive_index(index)
         for position in range(positiveindex + 1, len(self)):
             self._validate_item(position - 1, self[position])
-        self._del_parent_link(self[index])
-        super().__delitem__(index)
+        self._del_parent_link(self[positiveindex])
+        super().__delitem__(positiveindex)
         self._node_reference.update_signal()
 
     def remove(self, item):
@@ -299,12 +325,12 @@ class ChildrenList(list):
         :rtype: :py:class:`psyclone.psyir.nodes.Node`
 
         '''
-        positiveindex = index if index >= 0 else len(self) - index
+        positiveindex = self._positive_index(index)
         # Check if displaced items after 'positiveindex' will still be valid
         for position in range(positiveindex + 1, len(self)):
             self._validate_item(position - 1, self[position])
-        self._del_parent_link(self[index])
-        obj = super().pop(index)
+        self._del_parent_link(self[positiveindex])
+        obj = super().pop(positiveindex)
         self._node_reference.update_signal()
         return obj
 
